@@ -53,7 +53,7 @@ REQUIRED_HITS = [
     'crash.fired', 'crash.left_file_unrecorded', 'crash.fired.write_blob.closed', 'crash.fired.add_blobs.entry',
     'crash.fired.add_blobs.exit', 'crash.fired.blob_completed.entry', 'crash.fired.blob_completed.exit',
     'end.clean', 'end.abrupt', 'op.dl', 'op.publish', 'op.remote_stream', 'op.del', 'op.del_keep_db', 'op.rm', 'op.add',
-    'inproc.restarts', 'restart.fresh_process',
+    'inproc.restarts', 'inproc.same_manager', 'op.peek', 'restart.fresh_process',
 ]
 MAXB = 2 * 2 ** 20
 BULK_NS = [501, 502, 1003, 1002, 500, 499, 777, 600]
@@ -225,10 +225,16 @@ def gen_history(seed, nops, profile, epoch=0):
                             weights=[22, 10, 10, 22, 5, 5, 5, 5, 4, 3, 3, 3, 3])[0]
             ops.append(['add', cls, nadd, r.getrandbits(16), r.choice([1, 16, 1000, 4096]), _hexname(r)])
             nadd += 1
-        elif x < 90:
+        elif x < 87:
             ops.append(['quiesce'])
+        elif x < 90:
+            # a blob opened but never completed in this session: looked up only, or a download a peer abandoned half way
+            ops.append(['peek', r.getrandbits(16), nb, r.choice([1, 16, 1000, 4096]), r.choice(['lookup', 'lookup_then_file', 'lookup_then_file', 'half_written', 'half_written_then_file'])])
+            nb += 1
         elif x < 96:
-            ops.append(['restart', r.random() < 0.4])
+            # False: new manager on the same storage, True: new storage too, 'same': stop()/setup() of the SAME manager object (the
+            # restart idiom of the upstream blob-manager tests; seeded break C18-D kept blob objects cached across it)
+            ops.append(['restart', r.choice([False, False, True, True, 'same', 'same'])])
         else:
             ops.append(['bulk_add', r.choice([3, 10, 40])])
     ops.append(['end', r.choices(['clean', 'stop_only', 'abrupt'], weights=[4, 2, 4])[0]])
@@ -647,6 +653,33 @@ class Driver:
             if i < 5:
                 self.learn(h, data)
 
+    async def op_peek(self, k, i, size, mode):
+        """opens a blob without completing it; its content is known to the harness, so a later `add known` / `rm` can make the
+        file appear or disappear behind the manager's back"""
+        if k % 2 and self.known:
+            h = self.pick(k)
+            data = self.content.get(h)
+        else:
+            data = content_for(self.seed, 'dl', i, size)
+            h = blobbook.blob_name_of(data)
+            self.learn(h, data)
+        ok, blob = await self.lb('peek.get_blob', lambda: self.bm.get_blob(h, len(data) if data else None))
+        if not ok or not data or blob.get_is_verified():
+            return
+        if mode.startswith('half_written') and len(data) >= 2:
+            ok, writer = await self.lb('peek.get_blob_writer', lambda: blob.get_blob_writer('10.0.0.9', 3333))
+            if not ok:
+                return
+            await self.lb('peek.write', lambda: writer.write(data[:len(data) // 2]))
+            await self.lb('peek.close', lambda: writer.close_handle())       # the peer went away
+            await asyncio.sleep(0)
+        if mode.endswith('_then_file'):
+            # ... and the file then turns up behind the manager's back (restored from a backup, copied in by the user)
+            p = os.path.join(self.bdir, h)
+            if not os.path.lexists(p):
+                with open(p, 'wb') as f:
+                    f.write(data)
+
     async def op_restart(self, hard):
         """in-process restart at a quiescent point, observed like the fresh-process ones"""
         from lbry.extras.daemon.storage import SQLiteStorage
@@ -654,11 +687,12 @@ class Driver:
         await self.quiesce()
         pre_disk, pre_db = blobbook.snap_disk(self.bdir), blobbook.snap_db(self.dbpath, live=True)
         self.bm.stop()
-        if hard:
+        if hard is True:
             await self.storage.close()
             self.storage = SQLiteStorage(self.conf, self.dbpath, self.loop)
             await self.storage.open()
-        self.bm = BlobManager(self.loop, self.bdir, self.storage, self.conf)
+        if hard != 'same':
+            self.bm = BlobManager(self.loop, self.bdir, self.storage, self.conf)
         ok, _ = await self.lb('restart.setup', lambda: self.bm.setup())
         completed = sorted(self.bm.completed_blob_hashes)
         post_disk, post_db = blobbook.snap_disk(self.bdir), blobbook.snap_db(self.dbpath, live=True)
@@ -688,6 +722,8 @@ class Driver:
                 self.op_bulk_add(*op[1:])
             elif name == 'quiesce':
                 await self.quiesce()
+            elif name == 'peek':
+                await self.op_peek(*op[1:])
             elif name == 'restart':
                 await self.op_restart(*op[1:])
             elif name == 'end':
@@ -858,7 +894,7 @@ def run_one(rec, case):
             # in-process restarts seen during the history
             for n, ob in enumerate(ln for ln in lines if ln['t'] == 'restart'):
                 rec.hit('inproc.restarts')
-                rec.hit('inproc.hard' if ob['hard'] else 'inproc.soft')
+                rec.hit('inproc.same_manager' if ob['hard'] == 'same' else 'inproc.hard' if ob['hard'] else 'inproc.soft')
                 for k in blobbook.classify(ob['pre_disk'], ob['pre_db']):
                     rec.hit('class.' + k)
                 if not ob['setup_ok']:
